@@ -3,7 +3,10 @@ package props
 import (
 	"bytes"
 	"encoding/base64"
+	"encoding/binary"
 	"fmt"
+	"hash/adler32"
+	"hash/crc32"
 	"os"
 	"runtime"
 	"strconv"
@@ -157,11 +160,13 @@ func runC12(c *mon.Ctx) {
 		return x
 	}
 	// pad returns a document of exactly n bytes (valid message + trailing comment when it fits)
-	pad := func(kind string, n int64) (string, bool, string) {
+	// the filler of the trailing comment is plain ASCII, or bytes in a legacy encoding (an XML processor does not
+	// look inside comments; what is accepted as received must be accepted compressed)
+	pad := func(kind string, n int64, filler string) (string, bool, string) {
 		for _, signed := range []bool{true, false} {
 			b := baseDoc(kind, signed)
 			if int64(len(b))+7 <= n {
-				return b + "<!--" + strings.Repeat("p", int(n)-len(b)-7) + "-->", signed, "valid-message"
+				return b + "<!--" + strings.Repeat(filler, int(n)-len(b)-7) + "-->", signed, "valid-message"
 			}
 		}
 		switch {
@@ -229,11 +234,12 @@ func runC12(c *mon.Ctx) {
 					if n < 0 {
 						n = 0
 					}
-					doc, signed, what := pad(ep.kind, n)
+					filler := []string{"p", "p", "\xe9", "\xff"}[k%4]
+					doc, signed, what := pad(ep.kind, n, filler)
 					comp := sim.Deflate([]byte(doc), lvl)
 					in := base64.StdEncoding.EncodeToString(comp)
 					raw := base64.StdEncoding.EncodeToString([]byte(doc))
-					cs.Desc("L=%d (effective %d) size=%s=%d level=%d entry=%s doc=%s signed=%v", L, eff, mult, n, lvl, ep.name, what, signed)
+					cs.Desc("L=%d (effective %d) size=%s=%d level=%d entry=%s doc=%s signed=%v filler=%q", L, eff, mult, n, lvl, ep.name, what, signed, filler)
 					cs.Input([]byte(trunc(doc, 2048)))
 					var got, twin string
 					var gerr, terr error
@@ -302,7 +308,7 @@ func runC12(c *mon.Ctx) {
 				if eff == 0 || ep.fixed {
 					eff = c12Default
 				}
-				doc, signed, what := pad(ep.kind, 6000)
+				doc, signed, what := pad(ep.kind, 6000, "p")
 				var z []byte
 				switch form {
 				case "first-byte-lt":
@@ -311,7 +317,7 @@ func runC12(c *mon.Ctx) {
 					z = sim.DeflateStoredSniff([]byte(doc), ' ', 0x3C)
 				case "tab-then-lt":
 					// one final stored block whose length has 0x3C as low byte: the stream begins with TAB '<'
-					doc, signed, what = pad(ep.kind, 6000+int64((0x3C-6000%256+256)%256))
+					doc, signed, what = pad(ep.kind, 6000+int64((0x3C-6000%256+256)%256), "p")
 					z = sim.DeflateStoredFinalSniff([]byte(doc), '\t')
 				case "tab-final":
 					z = sim.DeflateStoredFinalSniff([]byte(doc), '\t')
@@ -364,9 +370,9 @@ func runC12(c *mon.Ctx) {
 				if effTo == 0 {
 					effTo = c12Default
 				}
-				warm, signedW, _ := pad(ep.kind, 3000)
-				over, signedO, _ := pad(ep.kind, effTo+1)
-				within, signedI, _ := pad(ep.kind, effTo-1)
+				warm, signedW, _ := pad(ep.kind, 3000, "p")
+				over, signedO, _ := pad(ep.kind, effTo+1, "p")
+				within, signedI, _ := pad(ep.kind, effTo-1, "\xe9")
 				_ = signedW
 				cs.Desc("limit %d -> %d entry=%s", from, to, ep.name)
 				sp := mkSP(false, from)
@@ -429,61 +435,93 @@ func runC12(c *mon.Ctx) {
 		bombCache[n] = buf.Bytes()
 		return bombCache[n]
 	}
+	// the same stream inside the two usual wrappers of DEFLATE data (RFC 1950 zlib, RFC 1952 gzip): code that is lenient
+	// about framing must still bound what it inflates
+	framed := func(n int64, framing string) []byte {
+		raw := bomb(n)
+		if framing == "raw" {
+			return raw
+		}
+		ad, cr := adler32.New(), crc32.NewIEEE()
+		chunk := make([]byte, 1<<20)
+		for i := range chunk {
+			chunk[i] = ' '
+		}
+		copy(chunk, "<a>")
+		for left := n; left > 0; left -= int64(len(chunk)) {
+			if left < int64(len(chunk)) {
+				chunk = chunk[:left]
+			}
+			ad.Write(chunk)
+			cr.Write(chunk)
+			copy(chunk, "   ")
+		}
+		if framing == "zlib" {
+			out := append([]byte{0x78, 0xda}, raw...)
+			return ad.Sum(out)
+		}
+		out := append([]byte{0x1f, 0x8b, 8, 0, 0, 0, 0, 0, 2, 0xff}, raw...)
+		out = binary.LittleEndian.AppendUint32(out, cr.Sum32())
+		return binary.LittleEndian.AppendUint32(out, uint32(n))
+	}
 	bk := 0
 	for _, L := range limits {
 		for _, ep := range eps {
-			bk++
-			cs := c.Begin("bomb", bk)
-			if cs == nil {
-				continue
-			}
-			eff := L
-			if eff == 0 || ep.fixed {
-				eff = c12Default
-			}
-			if ep.fixed && L != 0 {
-				cs.Outcome("skipped-duplicate")
-				continue
-			}
-			size := int64(256 << 20)
-			if 1000*eff > size {
-				size = 1000 * eff
-			}
-			if eff == c12Default {
-				size = 256 << 20
-				if c.Thorough() {
-					size = 1 << 30
+			for _, framing := range []string{"raw", "zlib", "gzip"} {
+				bk++
+				cs := c.Begin("bomb", bk)
+				if cs == nil {
+					continue
 				}
+				eff := L
+				if eff == 0 || ep.fixed {
+					eff = c12Default
+				}
+				if ep.fixed && L != 0 {
+					cs.Outcome("skipped-duplicate")
+					continue
+				}
+				size := int64(256 << 20)
+				if 1000*eff > size {
+					size = 1000 * eff
+				}
+				if eff == c12Default {
+					size = 256 << 20
+					if c.Thorough() {
+						size = 1 << 30
+					}
+				}
+				in := base64.StdEncoding.EncodeToString(framed(size, framing))
+				cs.Desc("%s bomb inflating to %d bytes, L=%d (effective %d), entry=%s, encoded %d bytes", framing, size, L, eff, ep.name, len(in))
+				cs.Input([]byte(trunc(in, 1024)))
+				var gerr error
+				var alloc, hwm int64
+				pv, _ := mon.Guard(func() {
+					sp := mkSP(false, L)
+					alloc, hwm = measure(func() { _, gerr = ep.call(sp, in) })
+				})
+				if pv != nil {
+					cs.Violation("panic", "panic on bomb: %v", pv)
+					continue
+				}
+				cs.Nontrivial(cs.Description())
+				bound := 8*eff + 4*int64(len(in)) + 2<<20
+				switch {
+				case gerr == nil:
+					cs.Violation("bomb-accepted", "a bomb inflating to %d bytes was not rejected (limit %d)", size, eff)
+				case alloc > bound:
+					cs.Outcome("bomb-over-allocation")
+					cs.Violation("bomb-allocation", "bomb (inflates to %d, limit %d) made the call allocate %d bytes > bound %d", size, eff, alloc, bound)
+				case hwm > bound+62<<20:
+					cs.Outcome("bomb-rss")
+					cs.Violation("bomb-rss", "bomb (inflates to %d, limit %d) raised the process high-water mark by %d bytes", size, eff, hwm)
+				default:
+					cs.Outcome("bomb-rejected:" + c12Class(gerr))
+				}
+				c.Count("bomb_alloc_bytes_total", alloc)
+				c.Count("bomb_framing."+framing, 1)
+				cs.Sample(map[string]any{"alloc_bytes": alloc, "bound": bound, "vmhwm_growth": hwm, "error": fmt.Sprint(gerr)})
 			}
-			in := base64.StdEncoding.EncodeToString(bomb(size))
-			cs.Desc("bomb inflating to %d bytes, L=%d (effective %d), entry=%s, encoded %d bytes", size, L, eff, ep.name, len(in))
-			cs.Input([]byte(trunc(in, 1024)))
-			var gerr error
-			var alloc, hwm int64
-			pv, _ := mon.Guard(func() {
-				sp := mkSP(false, L)
-				alloc, hwm = measure(func() { _, gerr = ep.call(sp, in) })
-			})
-			if pv != nil {
-				cs.Violation("panic", "panic on bomb: %v", pv)
-				continue
-			}
-			cs.Nontrivial(cs.Description())
-			bound := 8*eff + 4*int64(len(in)) + 2<<20
-			switch {
-			case gerr == nil:
-				cs.Violation("bomb-accepted", "a bomb inflating to %d bytes was not rejected (limit %d)", size, eff)
-			case alloc > bound:
-				cs.Outcome("bomb-over-allocation")
-				cs.Violation("bomb-allocation", "bomb (inflates to %d, limit %d) made the call allocate %d bytes > bound %d", size, eff, alloc, bound)
-			case hwm > bound+62<<20:
-				cs.Outcome("bomb-rss")
-				cs.Violation("bomb-rss", "bomb (inflates to %d, limit %d) raised the process high-water mark by %d bytes", size, eff, hwm)
-			default:
-				cs.Outcome("bomb-rejected:" + c12Class(gerr))
-			}
-			c.Count("bomb_alloc_bytes_total", alloc)
-			cs.Sample(map[string]any{"alloc_bytes": alloc, "bound": bound, "vmhwm_growth": hwm, "error": fmt.Sprint(gerr)})
 		}
 	}
 }
